@@ -873,6 +873,19 @@ func (g *gen) genCompLine(pi *progInfo) string {
 	for _, w := range words {
 		line += sep + w
 	}
+	if g.p(0.06) && len(words) > 0 {
+		// a space that is not one of the separators of the line (the words are cut at [\t\n\f\r ] only): a
+		// command name glued to the next word by U+3000, U+00A0, U+2003, U+0085 or a vertical tab stays one word
+		usp := []string{"\u3000", "\u00a0", "\u2003", "\u0085", "\v"}[g.r.Intn(5)]
+		if g.p(0.5) && len(cur.cmds) > 0 {
+			line += " " + g.pick(cmdPool) + usp + last
+			last = ""
+		} else {
+			line += usp + last
+			last = ""
+		}
+		return line + last
+	}
 	line += " " + last
 	if g.p(0.15) {
 		line += " "
